@@ -47,6 +47,9 @@ func genC10(rng *rand.Rand, tier string) *sim.Plan {
 		"restart": fmt.Sprint(rng.IntN(2)),
 		"maxids":  fmt.Sprint(1 + rng.IntN(4)),
 		"relbias": fmt.Sprint(rng.IntN(3)), // 2: QoS 2 heavy, PUBREL entries kept across quick re-initialisations
+		// 1: the acknowledging side goes quiet for seconds at a time while messages keep arriving slowly, so that
+		// in-flight entries outlive the in-flight expiry and a full queue has to sacrifice them (first rung of the ladder)
+		"ackstrike": fmt.Sprint(rng.IntN(3) / 2),
 	}
 	if p.Params["relbias"] == "2" {
 		p.Params["adds"] = fmt.Sprint(10 + rng.IntN(20))
@@ -91,6 +94,7 @@ type c10state struct {
 	drained   bool
 	log       []string
 	backend   string
+	droppedID []packets.PacketID // identifiers of entries reported dropped while they had one (expired in-flight)
 }
 
 func (s *c10state) fail(clause, sig, f string, a ...any) {
@@ -109,6 +113,7 @@ func tailS(l []string, n int) []string {
 func (n *c10notifier) NotifyDropped(e *queue.Elem, err error) {
 	s := n.st
 	s.probes["dropped"]++
+	s.probes["dropped: "+err.Error()]++
 	switch m := e.MessageWithID.(type) {
 	case *queue.Publish:
 		pl := string(m.Payload)
@@ -116,8 +121,12 @@ func (n *c10notifier) NotifyDropped(e *queue.Elem, err error) {
 			s.fail("conserve", "dropped-twice", "message %q reported dropped twice (%s, %v)", pl, old, err)
 		}
 		s.dropsSeen[pl] = err.Error()
+		if m.PacketID != 0 {
+			s.droppedID = append(s.droppedID, m.PacketID)
+		}
 	case *queue.Pubrel:
 		s.dropsSeen[fmt.Sprintf("rel:%d", m.PacketID)] = err.Error()
+		s.droppedID = append(s.droppedID, m.PacketID)
 	}
 }
 func (n *c10notifier) NotifyInflightAdded(d int) { n.st.iDelta += d }
@@ -151,7 +160,7 @@ func (s *c10state) remove(m *c10msg) {
 }
 
 // afterAdd applies the model for one Add that has just returned.
-func (s *c10state) afterAdd(m *c10msg, now time.Time) {
+func (s *c10state) afterAdd(m *c10msg, inv, now time.Time) {
 	m.idx = len(s.msgs) + 1 // insertion order = order in which the Add calls took effect
 	s.msgs = append(s.msgs, m)
 	s.byPay[m.payload] = m
@@ -196,23 +205,39 @@ func (s *c10state) afterAdd(m *c10msg, now time.Time) {
 		s.order = append(s.order, m)
 		return
 	}
-	// classify what was available
-	expired := func(x *c10msg) bool {
-		if x.where == "inflight" || x.where == "rel" {
-			return !x.inflExp.IsZero() && now.After(x.inflExp)
+	// classify what was available. The store reads its clock somewhere between the invocation (inv) and the
+	// return (now) of Add, and stamped the in-flight expiry somewhat before the model did (eps bounds both).
+	// An in-flight entry is "definitely" expired only when the in-flight expiry is configured, the entry still
+	// holds its message and the stamp lies before the invocation; it "may" count as expired when the stamp
+	// (or, with in-flight expiry disabled, its message expiry, which the entry keeps) has passed by the return,
+	// and for QoS 2 flows in the PUBREL stage, whose entry the implementation re-stamps only when it is replayed.
+	expired := func(x *c10msg) bool { return !x.expiry.IsZero() && now.After(x.expiry) }
+	mayExpired := func(x *c10msg) bool { return !x.expiry.IsZero() && now.After(s.lo(x.expiry)) }
+	defInfl := func(x *c10msg) bool {
+		return x.where == "inflight" && s.inflExp != 0 && !x.inflExp.IsZero() && inv.After(x.inflExp)
+	}
+	mayInfl := func(x *c10msg) bool {
+		if s.inflExp != 0 {
+			return !x.inflExp.IsZero() && now.After(s.lo(x.inflExp))
 		}
-		return !x.expiry.IsZero() && now.After(x.expiry)
+		return mayExpired(x)
 	}
 	infl, qd := s.inflight(), s.queued()
-	var expInfl, expQ, q0 []*c10msg
+	var expInfl, mayExpInfl, expQ, mayExpQ, q0 []*c10msg
 	for _, x := range infl {
-		if expired(x) {
+		if defInfl(x) {
 			expInfl = append(expInfl, x)
+		}
+		if mayInfl(x) {
+			mayExpInfl = append(mayExpInfl, x)
 		}
 	}
 	for _, x := range qd {
 		if expired(x) {
 			expQ = append(expQ, x)
+		}
+		if mayExpired(x) {
+			mayExpQ = append(mayExpQ, x)
 		}
 		if x.qos == 0 {
 			q0 = append(q0, x)
@@ -228,23 +253,25 @@ func (s *c10state) afterAdd(m *c10msg, now time.Time) {
 	}
 	want := ""
 	switch {
-	case len(infl) > 0 && expired(infl[0]):
+	case len(expInfl) > 0:
 		want = "an expired in-flight entry"
-		if !in(expInfl, victim) {
-			s.fail("drop_ladder", "ladder-expired-inflight", "queue full with an expired in-flight entry at its head (%q) but %q was sacrificed (%s)", infl[0].payload, victim.payload, why)
+		if !in(mayExpInfl, victim) {
+			s.fail("drop_ladder", "ladder-expired-inflight", "queue full with an expired in-flight entry (%q, in flight since before %v, now %v) but %q was sacrificed (%s)", expInfl[0].payload, expInfl[0].inflExp.Add(-s.inflExp), inv, victim.payload, why)
 		}
-	case len(expInfl) > 0 && in(expInfl, victim):
-		want = "an expired in-flight entry" // allowed (not the head)
+	case in(mayExpInfl, victim) && why == queue.ErrDropExpiredInflight.Error():
+		want = "an in-flight entry that may count as expired"
 	case len(qd) == 0:
 		want = "the newcomer (nothing is queued)"
 		if victim != m {
-			s.fail("drop_ladder", "ladder-nothing-queued", "queue full of in-flight entries only: the newcomer %q must be dropped, but %q was (%s)", m.payload, victim.payload, why)
+			s.fail("drop_ladder", "ladder-nothing-queued", "queue full of in-flight entries only: the newcomer %q must be dropped, but %q was (%s) [victim state %s, in-flight expiry %v, message expiry %v, configured in-flight expiry %v, inv %v now %v]", m.payload, victim.payload, why, victim.where, victim.inflExp, victim.expiry, s.inflExp, inv, now)
 		}
 	case len(expQ) > 0:
 		want = "an expired queued message"
-		if !in(expQ, victim) {
+		if !in(mayExpQ, victim) {
 			s.fail("drop_ladder", "ladder-expired-queued", "queue full with expired queued message %q but %q was sacrificed (%s)", expQ[0].payload, victim.payload, why)
 		}
+	case in(mayExpQ, victim) && why == queue.ErrDropExpired.Error():
+		want = "a queued message that may count as expired"
 	case len(q0) > 0:
 		want = "a queued QoS 0 message"
 		if !in(q0, victim) {
@@ -277,13 +304,22 @@ func (s *c10state) afterAdd(m *c10msg, now time.Time) {
 	s.order = append(s.order, m)
 }
 
+// lo is the earliest instant at which the store may consider a deadline t passed: the store read its clock up to
+// eps before the model did, and the redis back end keeps deadlines in whole seconds (rounded down).
+func (s *c10state) lo(t time.Time) time.Time {
+	if s.backend == "redis" {
+		return t.Add(-5 * time.Millisecond).Truncate(time.Second)
+	}
+	return t.Add(-time.Millisecond)
+}
+
 // applyDrops moves every message the notifier reported as dropped out of the model.
 func (s *c10state) applyDrops(now time.Time) {
 	for pl, why := range s.dropsSeen {
 		if m := s.byPay[pl]; m != nil {
 			switch why {
 			case queue.ErrDropExpired.Error():
-				if m.expiry.IsZero() || !now.After(m.expiry) {
+				if m.expiry.IsZero() || !now.After(s.lo(m.expiry)) {
 					s.fail("conserve", "not-expired", "message %q reported dropped as expired, but it has not expired (expiry %v, now %v)", pl, m.expiry, now)
 				}
 			case queue.ErrDropExceedsMaxPacketSize.Error():
@@ -362,6 +398,7 @@ func runC10(tb TB, p *sim.Plan) *sim.Outcome {
 		busy := 0 // store operations of adders / acker in progress
 		generation := 0
 		nextID := packets.PacketID(1)
+		var everHanded []packets.PacketID // identifiers the model has seen handed out (never reused by this harness)
 		adds := 0
 		done := map[string]bool{}
 		checkCounters := func(where string) {
@@ -474,6 +511,7 @@ func runC10(tb TB, p *sim.Plan) *sim.Outcome {
 						}
 						idp++
 						x.id = m.PacketID
+						everHanded = append(everHanded, m.PacketID)
 						x.where = "inflight"
 						if st.inflExp != 0 {
 							x.inflExp = now.Add(st.inflExp)
@@ -544,6 +582,7 @@ func runC10(tb TB, p *sim.Plan) *sim.Outcome {
 						}
 					}
 					busy++
+					inv := time.Now()
 					err := store.Add(e)
 					busy--
 					now := time.Now()
@@ -551,9 +590,11 @@ func runC10(tb TB, p *sim.Plan) *sim.Outcome {
 					if err != nil && !redisBackend {
 						st.fail("conserve", "add-error", "Add returned %v", err)
 					}
-					st.afterAdd(m, now)
+					st.afterAdd(m, inv, now)
 					checkCounters("after Add")
-					if rng.IntN(4) == 0 && p.Params["relbias"] != "2" {
+					if p.Params["ackstrike"] == "1" && p.Params["relbias"] != "2" {
+						pause(time.Duration(rng.IntN(6000)) * time.Millisecond)
+					} else if rng.IntN(4) == 0 && p.Params["relbias"] != "2" {
 						pause(time.Duration(rng.IntN(1500)) * time.Millisecond)
 					} else if p.Params["relbias"] == "2" {
 						pause(time.Duration(rng.IntN(25)) * time.Millisecond) // keep adding while the queue is re-initialised
@@ -651,11 +692,42 @@ func runC10(tb TB, p *sim.Plan) *sim.Outcome {
 		spawn("acker", func() {
 			for !stop {
 				pause(time.Duration(1+rng.IntN(20)) * time.Millisecond)
+				if p.Params["ackstrike"] == "1" && rng.IntN(3) == 0 {
+					pause(time.Duration(1+rng.IntN(45)) * time.Second)
+				}
 				if store == nil || closed || !st.drained {
 					// acknowledgements are processed after the in-flight entries were replayed
 					continue
 				}
 				infl := st.inflight()
+				if len(everHanded) > 0 && rng.IntN(6) == 0 {
+					// a late (or stray) acknowledgement: a packet identifier that is not in flight any more (already
+					// acknowledged, or its entry was dropped as expired in-flight), or one that is never issued.
+					// Nothing may change. (Identifiers the model has not yet seen are not used: the model lags the
+					// store by one scheduling point.)
+					id := everHanded[rng.IntN(len(everHanded))]
+					if rng.IntN(4) == 0 {
+						id = packets.PacketID(60000 + rng.IntN(5000))
+					} else if n := len(st.droppedID); n > 0 && rng.IntN(2) == 0 {
+						id = st.droppedID[n-1-rng.IntN(min(n, 3))] // the acknowledgement of an entry that was just dropped
+						st.probes["stale_ack_of_dropped_inflight"]++
+					}
+					stale := true
+					for _, y := range infl {
+						if y.id == id {
+							stale = false
+						}
+					}
+					if stale {
+						st.probes["stale_ack"]++
+						busy++
+						err := store.Remove(id)
+						busy--
+						logf("Remove(stale %d)=%v", id, err)
+						checkCounters("after a Remove of an identifier that is not in flight")
+						continue
+					}
+				}
 				if len(infl) == 0 {
 					continue
 				}
